@@ -67,6 +67,8 @@ type PathSummary struct {
 }
 
 type PathSample struct {
+	Schedule  []SchedEv         `json:"-"`
+	Complete  bool              `json:"-"`
 	Decisions int               `json:"decisions"`
 	Steps     int64             `json:"instructions"`
 	Nondet    []replayVal       `json:"nondet_model,omitempty"`
@@ -303,9 +305,10 @@ func (in *Interp) samplePath() *PathSample {
 				rv.V = ev.Eval(nd.Terms[0])
 			}
 			s.Nondet = append(s.Nondet, rv)
-			if len(s.Nondet) >= 40 {
-				break
-			}
+		}
+		s.Complete = true
+		if len(p.schedLog) > 0 {
+			s.Schedule = append(s.Schedule, p.schedLog...)
 		}
 	}
 	return s
@@ -435,7 +438,7 @@ func RunHarness(p *Program, cfg *Config, pkgPath, fnName string, log func(string
 				res.VioCount[k]++
 			}
 			if sum.Sample != nil {
-				if len(res.Samples) < 6 {
+				if len(res.Samples) < 3 || (res.Completed%997 == 0 && len(res.Samples) < 8) {
 					res.Samples = append(res.Samples, sum.Sample)
 				}
 				if sum.Obligs > 0 || len(sum.Violations) > 0 {
